@@ -204,6 +204,12 @@ def check_arbitrary_int(rep, g, equality):
     if und:
         rep.ob('R-ARB-INT', None, g, 'arbitrary: some paths could not be followed', {'why': [o.why for o in und][:3]})
     has_guard = bool(d['validators']) or bool(d['custom'])
+    sr0 = sigma_int_range(d)
+    if equality and sr0 is not None and sr0[0] <= sr0[1] and not d['sanitizers'] and not d['custom'] and not und:
+        # range equality presupposes that values come out at all: with a non-empty valid set some path returns Ok(value)
+        rep.ob('R-ARB-RET', any(o.kind == 'return' and is_ok(o.ret) for o in outs), g,
+               f'the valid set [{sr0[0]}, {sr0[1]}] is not empty, so some path of arbitrary returns a value',
+               {'rows': [(o.kind, show(o.ret)[:80] if o.ret else o.why) for o in outs][:4]})
     fi = find_int_in_range(ex, outs)
     if fi is None and check_arbitrary_int_by_evaluation(rep, g, outs, equality):
         return
